@@ -194,7 +194,7 @@ def c06_eq(r, seed, tier, model_ok):
     progs = []
     for x, y, z in trip:
         progs += [call("ㄴ", [x, y]), call("ㄴ", [y, x]), call("ㄴ", [y, z]), call("ㄴ", [x, z]), f"{x} {call('ㅅㅈ', [y, E(7)])} ㅎㄴ"]
-    o = [res(v) for v in impl_run([dict(text=p, trace=False) for p in progs])]
+    o = [res(v).split(" @")[0] for v in impl_run([dict(text=p, trace=False) for p in progs])]          # verdict or error class; the failing WORD of an ill-typed operand differs between x = y and y = x
     bad2 = []
     for i, (x, y, z) in enumerate(trip):
         xy, yx, yz, xz, look = o[5 * i:5 * i + 5]
